@@ -581,8 +581,97 @@ def r16_6(F, R):
         R.ok("R16.6", "Values::update/pop", "None arm returns without touching self.top", loc, how="path")
 
 
+def r16_7(F, R):
+    from ..cfg import Defs
+    R.rule("R16.7", "the count of trailing 223 bytes is an operand, not a policy: in serialize's EndPostamble arm the bound of the loop that writes 223 "
+                    "is the `num_223_bytes` field itself (a plain copy of it), so that the reader's count equals the operand for every value — "
+                    "a `max(4)` or similar changes the operation that is read back")
+    fn = _one(F, "dvi::serialize::serialize")
+    defs = Defs(fn)
+    # the Range whose loop body writes the constant 223
+    writes = [bi for bi, t in fn.calls() if strip_generics(callee_name(t) or "").endswith("Writer::u8") and len(t["args"]) == 2 and t["args"][1].get("c", {}).get("int") == 223]
+    if not writes:
+        raise AnchorError("R16.7: no write of the constant 223 in serialize")
+    ranges = [st for b in fn.blocks for st in b["s"] if st["k"] == "=" and st["rv"]["k"] == "agg" and st["rv"].get("ak") == "adt" and st["rv"]["adt"].endswith("ops::range::Range")]
+    # pick the range whose definition block reaches the 223 write and is the closest before it
+    from ..cfg import reachable
+    cands = []
+    for bi, b in enumerate(fn.blocks):
+        for st in b["s"]:
+            if st in ranges and any(w in reachable(fn, bi) for w in writes):
+                cands.append((bi, st))
+    if not cands:
+        raise AnchorError("R16.7: no Range feeding the 223 loop")
+    bi, st = max(cands, key=lambda x: x[0])
+    end = st["rv"]["ops"][1]
+
+    def chain(o, depth=6):
+        p = op_place(o)
+        out = []
+        while p is not None and depth > 0:
+            depth -= 1
+            if p["p"]:
+                out.append(("place", [e.get("n") if isinstance(e, dict) else e for e in p["p"]]))
+                # through a reference local: follow the base
+                d = defs.single(p["l"])
+                if d and d[0] == "st" and d[3]["k"] == "=" and d[3]["rv"]["k"] == "ref":
+                    out.append(("place", [e.get("n") if isinstance(e, dict) else e for e in d[3]["rv"]["pl"]["p"]]))
+                return out
+            d = defs.single(p["l"])
+            if d is None:
+                out.append(("multi", None))
+                return out
+            if d[0] == "call":
+                out.append(("call", strip_generics(callee_name(d[3]) or "").split("::")[-1]))
+                return out
+            rv = d[3]["rv"]
+            if rv["k"] == "use":
+                p = op_place(rv["op"])
+                if p is None:
+                    out.append(("const", rv["op"].get("c", {}).get("int")))
+                continue
+            out.append((rv["k"], rv.get("op")))
+            return out
+        return out
+    ch = chain(end)
+    ok = ch and ch[-1][0] == "place" and "num_223_bytes" in (ch[-1][1] or []) and all(c[0] == "place" for c in ch)
+    loc = fn.loc(st)
+    if ok:
+        R.ok("R16.7", "EndPostamble/223-count", "loop bound is a copy of num_223_bytes", loc, how="def-use")
+    else:
+        R.violation("R16.7", "EndPostamble/223-count", "the number of 223 bytes written for EndPostamble is not the operand itself (it is produced through %s): "
+                    "the operation read back has a different num_223_bytes" % [c for c in ch if c[0] != "place"][:2], loc)
+
+
+def r16_8(F, R):
+    R.rule("R16.8", "a page starts from scratch: on every path of Values::update for Op::BeginPage the push/pop stack (`tail`) is replaced and the "
+                    "registers (`top`) are reset — frames left over from an unbalanced previous page must not survive, or a later pop restores the "
+                    "previous page's w/x/y/z and VarRemover emits wrong distances")
+    upd = _one(F, "dvi::Values::update")
+    ops = {v[0]: v[2] for v in F.enums[OP]}
+    e = EDT(F, upd, type_assume={OP: ops["BeginPage"]}, interesting_fields=["tail", "top"])
+    n = 0
+    bad = 0
+    for p in e.run():
+        if p.end[0] != "return":
+            continue
+        n += 1
+        stored = {ev[1].split(".")[-1] for ev in p.events if ev[0] == "store"}
+        if not {"tail", "top"} <= stored:
+            bad += 1
+    loc = "%s:%d" % (upd.file, upd.line)
+    if n == 0:
+        raise AnchorError("R16.8: no returning path for BeginPage")
+    if bad:
+        R.violation("R16.8", "update/BeginPage", "Values::update(BeginPage) leaves the stack or the registers untouched on %d of %d paths" % (bad, n), loc)
+    else:
+        R.ok("R16.8", "update/BeginPage", "tail and top replaced on all %d paths" % n, loc, how="edt")
+
+
 def run(F, R, tier):
     r16_1(F, R)
+    r16_7(F, R)
+    r16_8(F, R)
     r16_5(F, R)
     r16_6(F, R)
     r16_1b(F, R)
